@@ -22,11 +22,18 @@ def Kind.fixedText : Kind → Option String
   | .comma => some "," | .semicolon => some ";" | .colon => some ":"
   | _ => none
 
+/-- Further tokens whose text the lexer fixes and which the printer prints as constants. -/
+def Kind.fixedTok : Kind → Option String
+  | .leftBracket => some "[" | .rightBracket => some "]" | .star => some "*" | .underscore => some "_"
+  | .dollar => some "$"
+  | _ => none
+
 mutual
 /-- Lexical shape: every node of a token kind is a leaf, and a delimiter or separator leaf carries the
 text the lexer fixes for its kind (decidable; true of every tree the parser returns). -/
 def ANode.tokensAreLeaves : ANode → Bool
-  | .leaf k t _ => match k.fixedText with | some s => t == s | none => true
+  | .leaf k t _ => (match k.fixedText with | some s => t == s | none => true) &&
+      (match k.fixedTok with | some s => t == s | none => true)
   | .inner k cs _ => k.isInnerKind && ANode.tokensAreLeavesL cs
 def ANode.tokensAreLeavesL : List ANode → Bool
   | [] => true
@@ -55,7 +62,11 @@ theorem leaf_of_token {c : ANode} (h : ANode.tokensAreLeaves c = true) (hk : c.k
 
 theorem leaf_text_fixed {k : Kind} {t : String} {a : Attrs} {s : String}
     (h : ANode.tokensAreLeaves (.leaf k t a) = true) (hf : k.fixedText = some s) : t = s := by
-  simp only [ANode.tokensAreLeaves, hf, beq_iff_eq] at h; exact h
+  simp only [ANode.tokensAreLeaves, hf, beq_iff_eq, Bool.and_eq_true] at h; exact h.1
+
+theorem leaf_tok_fixed {k : Kind} {t : String} {a : Attrs} {s : String}
+    (h : ANode.tokensAreLeaves (.leaf k t a) = true) (hf : k.fixedTok = some s) : t = s := by
+  simp only [ANode.tokensAreLeaves, hf, beq_iff_eq, Bool.and_eq_true] at h; exact h.2
 
 /-- A delimiter or separator leaf prescribes nothing: its characters are accounted for by no stream. -/
 theorem specAll_delim_leaf (k : Kind) (t : String) (a : Attrs) (s : String) (hf : k.fixedText = some s)
